@@ -21,8 +21,11 @@
    Not modelled: a second, concurrent failure (I/O error or another data error at the same
    time), signals from outside, wall-clock time.  Completion of the pipeline (SIGUSR2) is
    possible only after the failing thread has returned to normal work, as in C21; for worker
-   tasks this rests on the task running under the scheduler lock, which the dying thread never
-   releases ([data_structure_ok]: ds_lock_held, order of calls in worker_thread_proc()). *)
+   tasks this rests on the scheduler's accounting (the task still holds its work unit /
+   output slot, so can_terminate() is false: SchedX) and on the call being made with the
+   scheduler lock held, which the dying thread never releases ([data_structure_ok]:
+   lock_held_at, order of calls in worker_thread_proc()) -- an assumption of the model, backed
+   by these syntactic side conditions only. *)
 From Coq Require Import List NArith Bool String Ascii Arith.
 From LBZ Require Import Gen.IoFailTab Gen.DataFailTab Gen.Consts Gen.ErrTab IoFail.IoFailModel.
 Import ListNotations.
@@ -212,11 +215,27 @@ Definition site_row_ok (s : data_site) : bool :=
   | None => false
   end.
 
+(* Is the scheduler lock held when the call is made?  Syntactic: the task is entered with the
+   lock held; replay, in source order, the lock operations of the enclosing function that
+   precede the call (a callee listed in [lock_effects] contributes its own operations, e.g.
+   attach() = unlock, detach() = lock). *)
+Definition lock_ops_of (c : string) : list string :=
+  match find (fun p => String.eqb (fst p) c) lock_effects with
+  | Some p => snd p
+  | None => [c]
+  end.
+Definition apply_lock_op (locked : bool) (c : string) : bool :=
+  if String.eqb c "sched_lock" then true
+  else if String.eqb c "sched_unlock" then false
+  else locked.
+Definition lock_held_at (s : data_site) : bool :=
+  fold_left apply_lock_op (flat_map lock_ops_of (ds_lock_trace s)) true.
+
 Definition site_thread_ok (s : data_site) : bool :=
   match ds_thread s with
   | ThMain => true
   | ThWorkerTask =>
-    ds_lock_held s && existsb (fun t => String.eqb (snd t) (ds_func s)) expansion_tasks
+    lock_held_at s && existsb (fun t => String.eqb (snd t) (ds_func s)) expansion_tasks
   | _ => false       (* a site on another thread needs its own completion argument *)
   end.
 
